@@ -138,6 +138,10 @@ def run(ctx):
                        "through 12 entry points")
     ctx.assumptions += ["byte-level input space is explored (planned mutations, fuzzing), not exhausted",
                         "abstract ids are enumerated up to renaming; concrete ids drawn from {0,1,2,2^31-1,2^31,2^32-1,...}"]
+    only = set(filter(None, os.environ.get("VERIF_C14_ONLY", "").split(",")))   # development aid: run a subset of stages
+    on = lambda st: not only or st in only
+    if only:
+        ctx.log("NOTE: only stages %s (VERIF_C14_ONLY; not evidence)" % sorted(only))
     tlc_seed = ["-seed", str(ctx.seed)]
     drv = ctx.go_build("c14")
     if ctx.replay:
@@ -154,9 +158,21 @@ def run(ctx):
             ctx.violation("replay", "%s (spec: %s)" % (m["bad"][0], m["bad"][1:]), dict(event=m["event"], spec_says=m["bad"]))
         return
     # ---------------- (M)
-    if ctx.thorough:
+    if ctx.thorough and on("M"):
         ctx.model_check("MC_KeysetValidate", "MC_KeysetValidate", stage="M:<=3 keys, reduced per-key domain", workers=6, timeout=2400)
-    ctx.model_check("MC_KeysetValidate", "MC_KeysetValidate_quick", stage="M:<=2 keys, full per-key domain", workers=2)
+    if on("M"):
+        ctx.model_check("MC_KeysetValidate", "MC_KeysetValidate_quick", stage="M:<=2 keys, full per-key domain", workers=2)
+    if on("structural"):
+        stage_structural(ctx, drv, tlc_seed)
+    if on("keys"):
+        stage_keys(ctx, drv)
+    if on("bytes"):
+        stage_bytes(ctx, drv, tlc_seed)
+    if ctx.thorough and on("fuzz"):
+        fuzz_stage(ctx, int(os.environ.get("VERIF_FUZZTIME", "240")))
+
+
+def stage_structural(ctx, drv, tlc_seed):
     # ---------------- (R) structural
     plan = os.path.join(ctx.scratch, "plan-structural.ndjson")
     r = ctx.tlc("Plan_KeysetValidate", workers=1, heap="6g", extra=tlc_seed, timeout=3000,
@@ -167,16 +183,21 @@ def run(ctx):
     ctx.log("structural plan: %d abstract keysets" % len(rows))
     tr = os.path.join(ctx.scratch, "c14-structural.ndjson")
     out = ctx.run([drv, "-mode", "structural", "-plan", plan, "-out", tr])
-    ncase, nacc = expectations(ctx, tr)
-    ctx.stage("R:structural", cases=ncase, entry_points=12, accepted_loads=nacc)
+    # the oracle first; the reader model's predictions (coverage expectations) only when the oracle has no complaint
     mism, n = judge(ctx, tr, "R:structural keysets through every entry point",
                     lambda e: dict(mode="structural", n=e["n"], row=json.loads(rows[e["n"] - 1])))
-    ctx.cov["traces_validated_against_impl"] += ncase
+    if not mism:
+        ncase, nacc = expectations(ctx, tr)
+        ctx.stage("R:structural", cases=ncase, entry_points=12, accepted_loads=nacc)
+    ctx.cov["traces_validated_against_impl"] += n
     lines = open(tr).read().splitlines()
     for k in (len(lines) // 3, len(lines) // 2):
         ctx.sample(json.loads(lines[k]))
     if not mism:
         ctx.negative_control(TRACE, tr, corrupt, window=120, stage="NC:structural")
+
+
+def stage_keys(ctx, drv):
     # ---------------- (R) key level
     kplan = os.path.join(ctx.scratch, "plan-keys.ndjson")
     r = ctx.tlc("Plan_KeysetKeys", workers=1, heap="4g", env={"VERIF_OUT": kplan}, timeout=1800)
@@ -185,17 +206,21 @@ def run(ctx):
     krows = open(kplan).read().splitlines()
     ktr = os.path.join(ctx.scratch, "c14-keys.ndjson")
     ctx.run([drv, "-mode", "keys", "-plan", kplan, "-out", ktr], timeout=2400)
-    kstats = key_expectations(ctx, ktr)
-    ctx.stage("R:keys", cases=len(krows), **kstats)
-    ctx.log("key plan: %d cases; %s" % (len(krows), kstats))
     kmism, kn = judge(ctx, ktr, "R:key types x base keys x field edits",
                       lambda e: dict(mode="keys", n=e["n"], row=json.loads(krows[e["n"] - 1])))
+    if not kmism:
+        kstats = key_expectations(ctx, ktr)
+        ctx.stage("R:keys", cases=len(krows), **kstats)
+        ctx.log("key plan: %d cases; %s" % (len(krows), kstats))
     ctx.cov["traces_validated_against_impl"] += kn
     klines = open(ktr).read().splitlines()
     for k in (len(klines) // 4, len(klines) // 2):
         ctx.sample(json.loads(klines[k]))
     if not kmism:
         ctx.negative_control(TRACE, ktr, corrupt, window=120, stage="NC:keys")
+
+
+def stage_bytes(ctx, drv, tlc_seed):
     # ---------------- (T) byte level: TLC-planned mutation sequences
     bplan = os.path.join(ctx.scratch, "plan-bytes.ndjson")
     r = ctx.tlc("Plan_KeysetBytes", workers=1, heap="4g", env={"VERIF_OUT": bplan}, extra=tlc_seed, timeout=1800)
@@ -215,9 +240,6 @@ def run(ctx):
         raise ctx.infra("no planned mutant was accepted anywhere: the accepted-handle invariants were not exercised")
     if not bmism:
         ctx.negative_control(TRACE, btr, corrupt, window=120, stage="NC:bytes")
-    # ---------------- (T) Go's fuzzing engine as an input source
-    if ctx.thorough:
-        fuzz_stage(ctx, int(os.environ.get("VERIF_FUZZTIME", "240")))
 
 
 def fuzz_workdir(ctx):
